@@ -31,9 +31,10 @@ Definition exit_msg_cmd_masked : bool := true.
 Definition timeout_debug_fmt : list string := ["["; "] {timed out}"].
 Definition timeout_msg_fmt : list string := ["Command "; " timed out."].
 Definition timeout_msg_cmd_masked : bool := true.
-Definition timeout_link : link_kind := LinkCause.
+Definition timeout_cleanup_guarded : bool := true.
+Definition timeout_link : link_kind := LinkNone.
 Definition oserr_msg_masked : bool := true.
-Definition oserr_link : link_kind := LinkCause.
+Definition oserr_link : link_kind := LinkNone.
 Definition command_error_name : string := "bert_e.lib.simplecmd.CommandError".
 
 (* bert_e/lib/git.py: Repository.cmd and the wrappers of CommandError *)
@@ -59,5 +60,5 @@ Definition session_log_skip : string * (list string * list string) :=
 Definition flaky_exception_name : string := "bert_e.exceptions.FlakyGitHost".
 
 (* bert_e/git_host/github/__init__.py: Client *)
-Definition token_flow_prints_headers : bool := true.
+Definition token_flow_prints_headers : bool := false.
 Definition token_url_fmt : list string := [""; "/app/installations/"; "/access_tokens"].
